@@ -1,6 +1,6 @@
 """Runs operation lines (DESIGN Appendix A) on the real hyphe-traph, in-process, and renders the answers in
 the canonical form the Lean driver prints.  The tree under test is $TRAPH_REPO (default /repo)."""
-import os, re, shutil, sys, tempfile, warnings
+import os, re, shutil, signal, sys, tempfile, warnings
 
 REPO = os.environ.get("TRAPH_REPO", "/repo")
 if REPO not in sys.path:
@@ -26,6 +26,17 @@ RULES = {
 }
 for _n in (1, 2, 3, 4):
     RULES["path%d" % _n] = _HEAD + (_HOSTS % b"+") + (b"(p:[^\\|]+\\|){%d})" % _n)
+
+OP_TIMEOUT = float(os.environ.get("VERIF_OP_TIMEOUT", "20"))
+
+
+class OpTimeout(BaseException):
+    pass
+
+
+def _on_alarm(signum, frame):
+    raise OpTimeout()
+
 
 MASK = (1 << 64) - 1
 FNV_INIT = 14695981039346656037
@@ -180,14 +191,23 @@ class Impl(object):
 
     # -- execution
     def exec(self, line):
-        """returns (answer, nwrites, fingerprint)"""
+        """returns (answer, nwrites, fingerprint); an operation that does not return within OP_TIMEOUT seconds
+        (an edit of the code under test can make a walk loop for ever) is reported as `err other Timeout`"""
         del WRITE_LOG[:]
+        signal.signal(signal.SIGALRM, _on_alarm)
+        signal.setitimer(signal.ITIMER_REAL, OP_TIMEOUT)
         try:
             ans = self._exec(line.strip().split(" "))
         except TraphException:
             ans = "err traph"
+        except OpTimeout:
+            ans = "err other Timeout"
+        except MemoryError:
+            ans = "err other MemoryError"
         except Exception as e:  # noqa
             ans = "err other " + type(e).__name__
+        finally:
+            signal.setitimer(signal.ITIMER_REAL, 0)
         log = list(WRITE_LOG)
         return ans, len(log), writes_fingerprint(log)
 
